@@ -32,6 +32,8 @@ pub enum Ev {
     /// the first `n` bytes of a packet, then end-of-stream
     PartialThenEof(SPacket, usize),
     ReadErr,
+    /// a transient read error: Err(kind) once, the transport is readable again afterwards
+    ReadErrOnce,
     WriteErr,
     TakeStream(usize),
     DropRsp(usize),
@@ -65,6 +67,7 @@ impl Ev {
             Ev::Eof => "Eof".into(),
             Ev::PartialThenEof(p, n) => format!("PartialThenEof({} bytes of {})", n, p.brief()),
             Ev::ReadErr => "ReadError".into(),
+            Ev::ReadErrOnce => "TransientReadError".into(),
             Ev::WriteErr => "WriteError".into(),
             Ev::TakeStream(i) => format!("TakeStream(op{})", i),
             Ev::DropRsp(i) => format!("DropSubscribeRsp(op{})", i),
@@ -636,6 +639,13 @@ impl Sys {
                 self.m.read_err = true;
                 self.m.input_arrived();
                 self.w.read_error();
+            }
+            Ev::ReadErrOnce => {
+                // (the client is expected to treat any read error as the end of the connection)
+                self.m.read_err = true;
+                self.m.input_arrived();
+                let k = self.w.wire.borrow().read_err_kind;
+                self.w.read_error_once(k);
             }
             Ev::WriteErr => {
                 self.m.write_err = true;
